@@ -1,14 +1,15 @@
 #!/bin/bash
-# tools/regress_seeds.sh [out.md] : re-run every stored seeded change against the check that is recorded to catch it
+# tools/regress_seeds.sh [out.md] [glob] : re-run every stored seeded change (or those matching seeded/<glob>, default C*) against the check that is recorded to catch it
 # (the owning check first; if that exits 0, every check named "Cnn exit 1" in meta.json's result). Applies each patch to
 # /repo and restores it; do not use /repo for anything else while this runs.
 HERE="$(cd "$(dirname "$0")/.." && pwd)"
 OUT="${1:-$HERE/seeded/REGRESSION.md}"
+GLOB="${2:-C*}"
 echo "# Regression of all stored seeded changes (quick tier)" > "$OUT"
 echo "" >> "$OUT"
 echo "| seed | check | exit |" >> "$OUT"
 echo "|---|---|---|" >> "$OUT"
-for d in $(ls -d "$HERE"/seeded/C* | sort); do
+for d in $(ls -d "$HERE"/seeded/$GLOB | sort); do
   s=$(basename "$d"); owner=${s:0:3}
   if ! git -C /repo apply "$d/patch.diff" 2>/dev/null; then echo "| $s | - | patch does not apply |" >> "$OUT"; continue; fi
   "$HERE/run.sh" $owner quick > /tmp/regress.log 2>&1; rc=$?
